@@ -32,6 +32,10 @@ INLINE_TRAITS = re.compile(r"boost::multi::allocator_traits<.*>::(?!allocate\b|d
 
 INLINE_FREE = re.compile(r"^(?:[\w:<>,&* ]+? )?boost::multi::(?:\w+|operator[=!<>~]=?)\((?:boost::multi::)?(array|static_array|array_ref|subarray|const_subarray|move_subarray)<")
 
+# helpers of the library (boost::multi or its detail namespace) whose first parameter is a reference to an allocator: allocator propagation written
+# as a function (tag dispatch on the propagate_on_container_* traits) instead of in place
+INLINE_ALLOC_HELPER = re.compile(r"^(?:[\w:<>,&* ]+? )?boost::multi::(?:detail::)?\w+(?:<.*>)?\((?:ObsAlloc|StrictAlloc|RawAlloc|std::allocator)<[^()]*>\s*(?:const\s*)?&")
+
 PRIMS = [
     # (regex on demangled callee, event kind, may throw)
     (re.compile(r"\b(?:adl_)?(?:alloc_)?uninitialized_(copy|move|fill|value_construct|default_construct)(_n)?_t::operator\(\)"), "construct", True),
@@ -120,7 +124,7 @@ class Interp:
         if callee in self.mod.funcs:
             if self.opaque_extra and self.opaque_extra.search(dm):
                 return ("opaque", None, self.may_throw.get(callee, True), dm)
-            if INLINE.search(dm) or INLINE_STD.search(dm) or INLINE_FREE.search(dm) or INLINE_ACCESSOR.search(dm) or INLINE_TRAITS.search(dm) or container_member(dm) or (self.inline_extra and self.inline_extra.search(dm)):
+            if INLINE.search(dm) or INLINE_STD.search(dm) or INLINE_FREE.search(dm) or INLINE_ACCESSOR.search(dm) or INLINE_TRAITS.search(dm) or INLINE_ALLOC_HELPER.search(dm) or container_member(dm) or (self.inline_extra and self.inline_extra.search(dm)):
                 return ("inline", None, self.may_throw.get(callee, True), dm)
             return ("opaque", None, self.may_throw.get(callee, True), dm)
         return ("extern", None, not self.mod.is_nounwind(callee), dm)
